@@ -1,46 +1,59 @@
-//! M3 correspondence: the reference-counting protocol of utils.rs / strong.rs / weak.rs on the
-//! default collector under the cooperative scheduler.  Yield sites 100..119 (count-word accesses)
-//! and the operation-start site 1 are enabled; EBR-internal, queue and list sites are masked, so
-//! pins, unpins and whole collections happen inside steps and WHICH deferred function runs WHEN
-//! is an oracle for the model (the recorded observations drive the replay, see coq/Rc.v).
+//! M3 correspondence: the reference-counting protocol of utils.rs / strong.rs / weak.rs (count
+//! words, recursive destruction, AtomicRc cells and link fields) on the default collector under
+//! the cooperative scheduler.  Yield sites 100..130 and the operation-start site 1 are enabled;
+//! EBR-internal, queue and list sites are masked, so pins, unpins and whole collections happen
+//! inside steps and WHICH deferred function runs WHEN is an oracle for the model (the recorded
+//! observations drive the replay, see coq/Rc.v).
 //!
-//! Program encoding: `g0 nobj <nobj initial count words>` then per thread
+//! Program encoding: `g0 ncells nobj <nobj initial count words>` then per thread
 //! `-1 nvars <kind obj>* nops <len opcode args..>*`  (kind 1 = Rc, 2 = Weak, 0 = empty).
 use crate::conc::{case_line, sched_of, Canon};
 use crate::sched::{self, policy};
 use crate::util::Rng;
 use circ::verif::{ebr, strong as vs, weak as vw};
-use circ::{Guard, NewRcIter, Rc, RcObject, Snapshot, Weak, WeakSnapshot};
+use circ::{AtomicRc, Guard, NewRcIter, Rc, RcObject, Snapshot, Weak, WeakSnapshot};
 use std::collections::HashMap;
-use std::sync::atomic::{AtomicUsize, Ordering};
-use std::sync::mpsc;
+use std::sync::atomic::{AtomicUsize, Ordering, Ordering::SeqCst};
+use std::sync::{mpsc, Arc};
 
 pub const NSLOTS: usize = 8;
 const POISON: usize = 0xDEAD_DEAD;
 
 static DROPS: AtomicUsize = AtomicUsize::new(0);
 
-pub struct Obj {
+static SERIAL: AtomicUsize = AtomicUsize::new(1);
+
+pub struct Node {
+    serial: usize,
     id: std::cell::Cell<usize>,
+    next: AtomicRc<Node>,
+    other: AtomicRc<Node>,
 }
-unsafe impl Sync for Obj {}
-unsafe impl RcObject for Obj {
-    fn pop_edges(&mut self, _out: &mut Vec<Rc<Self>>) {}
+unsafe impl Sync for Node {}
+unsafe impl RcObject for Node {
+    fn pop_edges(&mut self, out: &mut Vec<Rc<Self>>) {
+        out.push(self.next.take());
+        out.push(self.other.take());
+    }
 }
-impl Drop for Obj {
+impl Drop for Node {
     fn drop(&mut self) {
         self.id.set(POISON);
         DROPS.fetch_add(1, Ordering::SeqCst);
     }
 }
+fn node(id: usize) -> Node {
+    Node { serial: SERIAL.fetch_add(1, Ordering::SeqCst), id: std::cell::Cell::new(id), next: AtomicRc::null(), other: AtomicRc::null() }
+}
 
 fn enabled(site: u32) -> bool {
-    site == 1 || (100..=119).contains(&site)
+    site == 1 || (100..=130).contains(&site)
 }
 
 #[derive(Clone, Debug)]
 pub struct Prog {
     pub g0: usize,
+    pub ncells: usize,
     pub nobj: usize,
     /// per thread: initial slots (kind, obj) and operations (opcode, args)
     pub threads: Vec<(Vec<(u8, usize)>, Vec<Vec<i64>>)>,
@@ -48,28 +61,30 @@ pub struct Prog {
 
 enum Slot {
     None,
-    Rc(Rc<Obj>),
-    Weak(Weak<Obj>),
-    Snap(Snapshot<'static, Obj>),
-    WSnap(WeakSnapshot<'static, Obj>),
-    Iter(NewRcIter<Obj>),
+    Rc(Rc<Node>),
+    Weak(Weak<Node>),
+    Snap(Snapshot<'static, Node>),
+    WSnap(WeakSnapshot<'static, Node>),
+    Iter(NewRcIter<Node>),
 }
 
 fn addr_of_word(w: usize) -> usize {
     w & !7usize & !(0xFusize << 60)
 }
+fn ts_of_word(w: usize) -> usize {
+    w >> 60
+}
 
 pub fn gen_program(rng: &mut Rng, thorough: bool) -> Prog {
     let g0 = rng.below(20) as usize;
     let nobj = 1 + rng.below(3) as usize;
+    let ncells = rng.below(3) as usize;
     let nt = 1 + rng.below(if thorough { 4 } else { 3 }) as usize;
+    let use_links = ncells > 0 || rng.chance(1, 2);
     let mut threads = vec![];
     for tix in 0..nt {
-        // initial handles: a few Rc / Weak to the shared objects
         let mut init = vec![];
-        let mut kinds: Vec<u8> = vec![0; NSLOTS]; // generator's view: 0 none 1 rc 2 weak 3 snap 4 wsnap 5 iter
-        // every shared object is owned by at least one thread at the start (the creator's own
-        // reference is released before the scheduled part begins)
+        let mut kinds: Vec<u8> = vec![0; NSLOTS]; // generator's view: 0 none 1 rc 2 weak 3 snap 4 wsnap 5 iter 6 maybe
         for j in 0..nobj {
             if j % nt == tix {
                 kinds[init.len()] = 1;
@@ -82,21 +97,30 @@ pub fn gen_program(rng: &mut Rng, thorough: bool) -> Prog {
             kinds[init.len()] = kd;
             init.push((kd, 1 + rng.below(nobj as u64) as usize));
         }
-        let nops = 2 + rng.below(if thorough { 14 } else { 8 }) as usize;
+        let nops = 2 + rng.below(if thorough { 16 } else { 9 }) as usize;
         let mut ops: Vec<Vec<i64>> = vec![];
         let mut depth = 0usize;
-        let pick = |rng: &mut Rng, kinds: &Vec<u8>, want: u8| -> Option<usize> {
-            let c: Vec<usize> = (0..NSLOTS).filter(|&i| kinds[i] == want).collect();
+        let pick = |rng: &mut Rng, kinds: &Vec<u8>, want: &[u8]| -> Option<usize> {
+            let c: Vec<usize> = (0..NSLOTS).filter(|&i| want.contains(&kinds[i])).collect();
             if c.is_empty() {
                 None
             } else {
                 Some(*rng.pick(&c))
             }
         };
+        // a cell: a root cell, or a field of a node this thread can reach through an Rc / Snapshot
+        let pick_cell = |rng: &mut Rng, kinds: &Vec<u8>| -> Option<(i64, i64, i64)> {
+            let via: Vec<usize> = (0..NSLOTS).filter(|&i| kinds[i] == 1 || kinds[i] == 3).collect();
+            if ncells > 0 && (via.is_empty() || rng.chance(1, 2)) {
+                Some((0, rng.below(ncells as u64) as i64, 0))
+            } else if !via.is_empty() {
+                Some((1, *rng.pick(&via) as i64, rng.below(2) as i64))
+            } else {
+                None
+            }
+        };
         for _ in 0..nops {
-            let d = rng.below(NSLOTS as u64) as usize;
-            let r = rng.below(100);
-            // never overwrite a live handle silently: destination must be empty (else drop first)
+            let r = rng.below(if use_links { 130 } else { 100 });
             let free: Vec<usize> = (0..NSLOTS).filter(|&i| kinds[i] == 0).collect();
             let dst = if free.is_empty() { None } else { Some(*rng.pick(&free)) };
             match r {
@@ -107,7 +131,6 @@ pub fn gen_program(rng: &mut Rng, thorough: bool) -> Prog {
                     }
                 }
                 6..=8 => {
-                    // new_many n into consecutive free slots
                     let n = rng.below(4) as usize;
                     let start = (0..NSLOTS).find(|&i| (i..i + n).all(|j| j < NSLOTS && kinds[j] == 0));
                     if let Some(s0) = start {
@@ -124,13 +147,13 @@ pub fn gen_program(rng: &mut Rng, thorough: bool) -> Prog {
                     }
                 }
                 12..=15 => {
-                    if let (Some(i), Some(d)) = (pick(rng, &kinds, 5), dst) {
+                    if let (Some(i), Some(d)) = (pick(rng, &kinds, &[5]), dst) {
                         ops.push(vec![3, i as i64, d as i64]);
                         kinds[d] = 1; // maybe none at run time: operations on it are then no-ops
                     }
                 }
                 16..=17 => {
-                    if let Some(i) = pick(rng, &kinds, 5) {
+                    if let Some(i) = pick(rng, &kinds, &[5]) {
                         if depth > 0 && rng.chance(1, 2) {
                             ops.push(vec![4, i as i64]);
                         } else {
@@ -140,13 +163,13 @@ pub fn gen_program(rng: &mut Rng, thorough: bool) -> Prog {
                     }
                 }
                 18..=25 => {
-                    if let (Some(a), Some(d)) = (pick(rng, &kinds, 1), dst) {
+                    if let (Some(a), Some(d)) = (pick(rng, &kinds, &[1]), dst) {
                         ops.push(vec![6, a as i64, d as i64]);
                         kinds[d] = 1;
                     }
                 }
                 26..=40 => {
-                    if let Some(a) = pick(rng, &kinds, 1) {
+                    if let Some(a) = pick(rng, &kinds, &[1]) {
                         if depth > 0 && rng.chance(1, 3) {
                             ops.push(vec![8, a as i64]);
                         } else {
@@ -156,13 +179,13 @@ pub fn gen_program(rng: &mut Rng, thorough: bool) -> Prog {
                     }
                 }
                 41..=46 => {
-                    if let (Some(a), Some(d)) = (pick(rng, &kinds, 1), dst) {
+                    if let (Some(a), Some(d)) = (pick(rng, &kinds, &[1]), dst) {
                         ops.push(vec![9, a as i64, d as i64]);
                         kinds[d] = 2;
                     }
                 }
                 47..=48 => {
-                    if let Some(a) = pick(rng, &kinds, 1) {
+                    if let Some(a) = pick(rng, &kinds, &[1]) {
                         let n = rng.below(3) as usize;
                         let start = (0..NSLOTS).find(|&i| (i..i + n).all(|j| j < NSLOTS && kinds[j] == 0));
                         if let Some(s0) = start {
@@ -174,55 +197,55 @@ pub fn gen_program(rng: &mut Rng, thorough: bool) -> Prog {
                     }
                 }
                 49..=51 => {
-                    if let (Some(a), Some(d)) = (pick(rng, &kinds, 2), dst) {
+                    if let (Some(a), Some(d)) = (pick(rng, &kinds, &[2]), dst) {
                         ops.push(vec![11, a as i64, d as i64]);
                         kinds[d] = 2;
                     }
                 }
                 52..=59 => {
-                    if let Some(a) = pick(rng, &kinds, 2) {
+                    if let Some(a) = pick(rng, &kinds, &[2]) {
                         ops.push(vec![12, a as i64]);
                         kinds[a] = 0;
                     }
                 }
                 60..=70 => {
-                    if let (Some(a), Some(d)) = (pick(rng, &kinds, 2), dst) {
+                    if let (Some(a), Some(d)) = (pick(rng, &kinds, &[2]), dst) {
                         ops.push(vec![13, a as i64, d as i64]);
                         kinds[d] = 1;
                     }
                 }
                 71..=74 if depth > 0 => {
-                    if let (Some(a), Some(d)) = (pick(rng, &kinds, 1), dst) {
+                    if let (Some(a), Some(d)) = (pick(rng, &kinds, &[1]), dst) {
                         ops.push(vec![14, a as i64, d as i64]);
                         kinds[d] = 3;
                     }
                 }
                 75..=77 if depth > 0 => {
-                    if let (Some(a), Some(d)) = (pick(rng, &kinds, 3), dst) {
+                    if let (Some(a), Some(d)) = (pick(rng, &kinds, &[3]), dst) {
                         ops.push(vec![15, a as i64, d as i64]);
                         kinds[d] = 1;
                     }
                 }
                 78..=79 if depth > 0 => {
-                    if let (Some(a), Some(d)) = (pick(rng, &kinds, 3), dst) {
+                    if let (Some(a), Some(d)) = (pick(rng, &kinds, &[3]), dst) {
                         ops.push(vec![16, a as i64, d as i64]);
                         kinds[d] = 4;
                     }
                 }
                 80..=82 if depth > 0 => {
-                    if let (Some(a), Some(d)) = (pick(rng, &kinds, 4), dst) {
+                    if let (Some(a), Some(d)) = (pick(rng, &kinds, &[4]), dst) {
                         ops.push(vec![17, a as i64, d as i64]);
                         kinds[d] = 2;
                     }
                 }
                 83..=86 if depth > 0 => {
-                    if let (Some(a), Some(d)) = (pick(rng, &kinds, 4), dst) {
+                    if let (Some(a), Some(d)) = (pick(rng, &kinds, &[4]), dst) {
                         ops.push(vec![18, a as i64, d as i64]);
                         kinds[d] = 3;
                     }
                 }
                 87..=89 if depth > 0 => {
-                    if let (Some(a), Some(d)) = (pick(rng, &kinds, 2), dst) {
+                    if let (Some(a), Some(d)) = (pick(rng, &kinds, &[2]), dst) {
                         ops.push(vec![19, a as i64, d as i64]);
                         kinds[d] = 4;
                     }
@@ -245,18 +268,54 @@ pub fn gen_program(rng: &mut Rng, thorough: bool) -> Prog {
                         }
                     }
                 }
-                _ => {
-                    let _ = d;
+                // ---- cells and links
+                100..=107 if depth > 0 => {
+                    if let (Some((ck, a, b)), Some(d)) = (pick_cell(rng, &kinds), dst) {
+                        ops.push(vec![30, ck, a, b, d as i64]);
+                        kinds[d] = 3;
+                    }
                 }
+                108..=116 if depth > 0 => {
+                    if let (Some((ck, a, b)), Some(src)) = (pick_cell(rng, &kinds), pick(rng, &kinds, &[1])) {
+                        if !(ck == 1 && a == src as i64) {
+                            ops.push(vec![31, ck, a, b, src as i64]);
+                            kinds[src] = 0;
+                        }
+                    }
+                }
+                117..=121 => {
+                    if let (Some((ck, a, b)), Some(src)) = (pick_cell(rng, &kinds), pick(rng, &kinds, &[1])) {
+                        if !(ck == 1 && a == src as i64) {
+                            // the previous content comes back into the slot the new pointer was taken from
+                            ops.push(vec![32, ck, a, b, src as i64, src as i64]);
+                        }
+                    }
+                }
+                122..=129 if depth > 0 => {
+                    if let (Some((ck, a, b)), Some(e), Some(src), Some(d)) =
+                        (pick_cell(rng, &kinds), pick(rng, &kinds, &[3]), pick(rng, &kinds, &[1]), dst)
+                    {
+                        if !(ck == 1 && a == src as i64) {
+                            ops.push(vec![33, ck, a, b, e as i64, src as i64, d as i64]);
+                            // success: d holds an Rc and src is empty; failure: d holds a snapshot, src keeps its Rc.
+                            // The generator cannot know: both become "maybe" slots (operations on them are no-ops
+                            // when the kind does not fit)
+                            kinds[d] = 6;
+                            kinds[src] = 6;
+                        }
+                    }
+                }
+                _ => {}
             }
         }
-        // release everything: guards first (snapshots die), then handles
+        // release everything: guards first (snapshots die), then handles ("maybe" slots are dropped as Rc:
+        // a no-op when they hold something else; leftovers are released after the recorded part)
         for _ in 0..depth {
             ops.push(vec![21]);
         }
         for i in 0..NSLOTS {
             match kinds[i] {
-                1 => ops.push(vec![7, i as i64]),
+                1 | 6 => ops.push(vec![7, i as i64]),
                 2 => ops.push(vec![12, i as i64]),
                 5 => ops.push(vec![5, i as i64]),
                 _ => {}
@@ -264,11 +323,11 @@ pub fn gen_program(rng: &mut Rng, thorough: bool) -> Prog {
         }
         threads.push((init, ops));
     }
-    Prog { g0, nobj, threads }
+    Prog { g0, ncells, nobj, threads }
 }
 
 pub fn encode(p: &Prog, words: &[u64]) -> Vec<i64> {
-    let mut out = vec![p.g0 as i64, p.nobj as i64];
+    let mut out = vec![p.g0 as i64, p.ncells as i64, p.nobj as i64];
     out.extend(words.iter().map(|&w| w as i64));
     for (init, ops) in &p.threads {
         out.push(-1);
@@ -304,23 +363,51 @@ impl<T> SendBox<T> {
     }
 }
 
-/// runs one case; returns (case line, monitor lines)
+pub struct Cells(Vec<AtomicRc<Node>>);
+unsafe impl Sync for Cells {}
+unsafe impl Send for Cells {}
+
+/// offsets of the two link fields inside the allocation (RcInner<Node>), measured on a sample
+fn field_offsets() -> (usize, usize) {
+    let r = Rc::new(node(0));
+    let base = addr_of_word(vs::rc_word(&r));
+    let n = r.as_ref().unwrap();
+    let o = (&n.next as *const _ as usize - base, &n.other as *const _ as usize - base);
+    drop(r);
+    o
+}
+
 pub fn run_case(p: &Prog, rng: &mut Rng, script: Option<Vec<usize>>) -> (String, Vec<String>) {
+    run_case_tuned(p, rng, script, None)
+}
+
+pub fn run_case_tuned(p: &Prog, rng: &mut Rng, script: Option<Vec<usize>>, manual: Option<usize>) -> (String, Vec<String>) {
+    sched::install();
+    let (off_next, off_other) = field_offsets();
+    // drain what the sample left behind
+    for _ in 0..8 {
+        let g = circ::cs();
+        g.flush();
+        drop(g);
+    }
     let base = ebr::default_epoch_data() >> 1;
-    // start epochs are relative to where the default collector happens to be: all 16 residues get covered
-    let g_start = base + p.g0;
-    advance_default_epoch_to(g_start);
+    advance_default_epoch_to(base + p.g0);
     let g_start = ebr::default_epoch_data() >> 1;
     DROPS.store(0, Ordering::SeqCst);
-    sched::install();
     let allocs0 = sched::ALLOCS.load(Ordering::SeqCst);
     let deallocs0 = sched::DEALLOCS.load(Ordering::SeqCst);
     // how often decrement_strong flushes (MANUAL_EVENTS_BETWEEN_COLLECT): small values make collections,
     // hence deferred destructions, happen inside the recorded part
-    ebr::set_tuning(64, *rng.pick(&[1usize, 1, 2, 3, 64]));
+    let picked = *rng.pick(&[1usize, 1, 2, 3, 64]);
+    ebr::set_tuning(64, manual.unwrap_or(picked));
     let mut canon = Canon::new();
+    let cells = Arc::new(Cells((0..p.ncells).map(|_| AtomicRc::null()).collect()));
+    let mut cell_addr: HashMap<usize, i64> = HashMap::new();
+    for (i, c) in cells.0.iter().enumerate() {
+        cell_addr.insert(c as *const _ as usize, i as i64);
+    }
     // prelude: the shared objects and every thread's initial handles
-    let masters: Vec<Rc<Obj>> = (0..p.nobj).map(|i| Rc::new(Obj { id: std::cell::Cell::new(i + 1) })).collect();
+    let masters: Vec<Rc<Node>> = (0..p.nobj).map(|i| Rc::new(node(i + 1))).collect();
     for m in &masters {
         canon.fresh(addr_of_word(vs::rc_word(m)));
     }
@@ -338,43 +425,37 @@ pub fn run_case(p: &Prog, rng: &mut Rng, script: Option<Vec<usize>>) -> (String,
     }
     // the creator's references are released now (every object is still owned by some thread's handle);
     // the initial count words are read after that
-    let holders: Vec<*const Rc<Obj>> = vec![];
-    let _ = holders;
     let mut words: Vec<u64> = vec![];
     {
-        // read the word through a thread's handle after dropping the master
-        let mut ms: Vec<Option<Rc<Obj>>> = masters.into_iter().map(Some).collect();
+        let mut ms: Vec<Option<Rc<Node>>> = masters.into_iter().map(Some).collect();
         for j in 0..ms.len() {
-            let probe: Option<&Rc<Obj>> = inits.iter().flat_map(|b| b.0.iter()).find_map(|s| match s {
+            let probe: Option<&Rc<Node>> = inits.iter().flat_map(|b| b.0.iter()).find_map(|s| match s {
                 Slot::Rc(r) if addr_of_word(vs::rc_word(r)) == addr_of_word(vs::rc_word(ms[j].as_ref().unwrap())) => Some(r),
                 _ => None,
             });
-            let probe = probe.expect("every object is owned by a thread") as *const Rc<Obj>;
+            let probe = probe.expect("every object is owned by a thread") as *const Rc<Node>;
             drop(ms[j].take());
             words.push(vs::rc_count_word(unsafe { &*probe }));
         }
     }
-    let masters: Vec<Rc<Obj>> = vec![];
-    let (tx, rx) = mpsc::channel::<(usize, Vec<String>)>();
+    let (tx, rx) = mpsc::channel::<(usize, Vec<String>, SendBox<(Vec<Slot>, Vec<Guard>)>)>();
     let mut bodies: Vec<Box<dyn FnOnce() + Send>> = vec![];
     for (tid, ((_, ops), slots)) in p.threads.iter().cloned().zip(inits.into_iter()).enumerate() {
         let tx = tx.clone();
+        let cells = cells.clone();
         bodies.push(Box::new(move || {
             let mut slots = slots.into_inner();
             let mut guards: Vec<Guard> = vec![];
             let mut mon: Vec<String> = vec![];
             sched::arm(true);
             for op in &ops {
-                run_op(tid, op, &mut slots, &mut guards, &mut mon);
+                run_op(tid, op, &mut slots, &mut guards, &cells, &mut mon);
             }
             sched::obs(1, 9, 0);
             sched::arm(false);
-            // a well-formed program has released everything; release leftovers outside the recorded part
-            slots.clear();
-            while let Some(g) = guards.pop() {
-                drop(g);
-            }
-            let _ = tx.send((tid, mon));
+            // leftovers (handles the program did not release, e.g. after a skipped operation) are handed
+            // to the main thread and released only after EVERY thread has finished its recorded part
+            let _ = tx.send((tid, mon, SendBox((slots, guards))));
         }));
     }
     drop(tx);
@@ -391,15 +472,29 @@ pub fn run_case(p: &Prog, rng: &mut Rng, script: Option<Vec<usize>>) -> (String,
         }
     };
     let mut monitor: Vec<String> = vec![];
-    for (_, m) in rx.iter() {
+    let mut leftovers = vec![];
+    for (_, m, l) in rx.iter() {
         monitor.extend(m);
+        leftovers.push(l);
     }
-    // release the masters, then drain the collector: every object must be destructed exactly once
-    let nmasters = p.nobj;
-    drop(masters);
-    // canonicalise and count allocations
+    // canonicalise
+    let cw = |canon: &Canon, w: usize| -> i64 { canon.get(addr_of_word(w)) * 16 + ts_of_word(w) as i64 };
+    let cell_of = |canon: &Canon, addr: usize| -> i64 {
+        if let Some(&i) = cell_addr.get(&addr) {
+            return i;
+        }
+        let a = canon.get(addr.wrapping_sub(off_next));
+        if a > 0 {
+            return 1000 + 2 * a;
+        }
+        let b = canon.get(addr.wrapping_sub(off_other));
+        if b > 0 {
+            return 1000 + 2 * b + 1;
+        }
+        -1
+    };
     let mut steps: Vec<Vec<(u32, i64, u64)>> = vec![];
-    let mut allocs = nmasters;
+    let mut allocs = p.nobj;
     let mut dealloc_seen: HashMap<i64, usize> = HashMap::new();
     let mut dropped_at: HashMap<i64, usize> = HashMap::new();
     for (k, st) in res.trace.iter().enumerate() {
@@ -409,12 +504,17 @@ pub fn run_case(p: &Prog, rng: &mut Rng, script: Option<Vec<usize>>) -> (String,
                 1 | 2000 => out.push((site, a as i64, b as u64)),
                 2100 => out.push((site, 0, b as u64)),
                 2001 => out.push((site, canon.get(a), 0)),
+                2002 => out.push((site, cw(&canon, a), 0)),
                 1103 => {
                     allocs += 1;
                     let id = canon.fresh(a);
                     out.push((site, id, b as u64));
                 }
-                100..=119 | 1000..=1021 | 1100..=1102 => {
+                120 => out.push((site, 0, 0)),
+                1120 => out.push((site, 0, b as u64)),
+                121 => out.push((site, cell_of(&canon, a), 0)),
+                122 | 123 | 1022 => out.push((site, cell_of(&canon, a), cw(&canon, b) as u64)),
+                100..=119 | 130 | 1000..=1021 | 1100..=1102 | 1130 => {
                     let id = canon.get(a);
                     if site == 1100 {
                         *dealloc_seen.entry(id).or_insert(0) += 1;
@@ -462,6 +562,22 @@ pub fn run_case(p: &Prog, rng: &mut Rng, script: Option<Vec<usize>>) -> (String,
             }
         }
     }
+    // release leftovers and the root cells, then drain the collector: every object destructed once,
+    // every block freed
+    for l in leftovers {
+        let (mut slots, mut guards) = l.into_inner();
+        for s in slots.iter_mut() {
+            if matches!(s, Slot::Snap(_) | Slot::WSnap(_)) {
+                *s = Slot::None;
+            }
+        }
+        slots.clear();
+        while let Some(g) = guards.pop() {
+            // a guard of another (finished) thread: forget it, its participant is gone with the thread
+            std::mem::forget(g);
+        }
+    }
+    drop(cells);
     let mut rounds = 0;
     let blocks_alive = |a0: usize, d0: usize| (sched::ALLOCS.load(Ordering::SeqCst) - a0) - (sched::DEALLOCS.load(Ordering::SeqCst) - d0);
     while (DROPS.load(Ordering::SeqCst) < allocs || blocks_alive(allocs0, deallocs0) > 0) && rounds < 64 {
@@ -503,33 +619,94 @@ fn obj_addr(s: &Slot) -> usize {
     }
 }
 
-fn run_op(_tid: usize, op: &[i64], slots: &mut Vec<Slot>, guards: &mut Vec<Guard>, mon: &mut Vec<String>) {
+/// generated programs stay acyclic: a field of node X may only receive a pointer to a node allocated
+/// after X (serial numbers are in allocation order, like the canonical ids of the model)
+fn store_ok(ck: i64, holder: Option<usize>, new: &Rc<Node>) -> bool {
+    if ck == 0 {
+        return true;
+    }
+    match (holder, new.as_ref()) {
+        (_, None) => true,
+        (Some(h), Some(n)) => h < n.serial,
+        (None, _) => false,
+    }
+}
+
+fn holder_serial(ck: i64, a: i64, slots: &[Slot]) -> Option<usize> {
+    if ck == 0 {
+        return None;
+    }
+    match &slots[a as usize] {
+        Slot::Rc(r) => r.as_ref().map(|n| n.serial),
+        Slot::Snap(s) => s.as_ref().map(|n| n.serial),
+        _ => None,
+    }
+}
+
+/// the cell designated by (ck, a, b), reached through a root index or a non-null Rc / Snapshot
+fn get_cell(ck: i64, a: i64, b: i64, slots: &[Slot], cells: &Cells, mon: &mut Vec<String>) -> Option<*const AtomicRc<Node>> {
+    if ck == 0 {
+        return cells.0.get(a as usize).map(|c| c as *const _);
+    }
+    let n: Option<*const Node> = match &slots[a as usize] {
+        Slot::Rc(r) => {
+            let n = r.as_ref();
+            if let Some(n) = n {
+                if n.id.get() == POISON {
+                    mon.push("PROPFAIL C01 a field is reached through an Rc whose object was destructed".to_string());
+                    return None;
+                }
+            }
+            n.map(|n| n as *const Node)
+        }
+        Slot::Snap(s) => {
+            let n = s.as_ref();
+            if let Some(n) = n {
+                if n.id.get() == POISON {
+                    mon.push("PROPFAIL C02 a field is reached through a Snapshot whose object was destructed inside its critical section".to_string());
+                    return None;
+                }
+            }
+            n.map(|n| n as *const Node)
+        }
+        _ => None,
+    };
+    n.map(|n| unsafe { if b == 0 { &(*n).next as *const _ } else { &(*n).other as *const _ } })
+}
+
+fn run_op(_tid: usize, op: &[i64], slots: &mut Vec<Slot>, guards: &mut Vec<Guard>, cells: &Arc<Cells>, mon: &mut Vec<String>) {
     let opc = op[0];
     let a1 = op.get(1).copied().unwrap_or(0);
     sched::obs(1, opc as usize, a1 as usize);
-    let prim = if (3..=19).contains(&opc) {
-        match &slots[a1 as usize] {
-            Slot::Iter(it) => iter_addr(it),
-            s => obj_addr(s),
-        }
-    } else {
-        0
-    };
+    let prim = if (3..=19).contains(&opc) { obj_addr(&slots[a1 as usize]) } else { 0 };
     sched::obs(2001, prim, 0);
     let mut res = 0usize;
     let take = |slots: &mut Vec<Slot>, i: usize| std::mem::replace(&mut slots[i], Slot::None);
-    match opc {
+    // an operation is a no-op unless its destination slot(s) are empty (a handle is never overwritten)
+    let free = |slots: &Vec<Slot>, d: i64, n: i64| (d..d + n).all(|j| matches!(slots.get(j as usize), Some(Slot::None)));
+    let dst_free = match opc {
+        0 | 24 => free(slots, op[1], 1),
+        1 => free(slots, op[2], op[1]),
+        2 | 3 | 6 | 9 | 11 | 13..=19 => free(slots, op[2], 1),
+        10 => free(slots, op[3], op[2]),
+        30 => free(slots, op[4], 1),
+        32 => op[4] == op[5] || free(slots, op[5], 1),
+        33 => free(slots, op[6], 1),
+        _ => true,
+    };
+    let opc_run = if dst_free { opc } else { -1 };
+    match opc_run {
         0 => {
-            slots[a1 as usize] = Slot::Rc(Rc::new(Obj { id: std::cell::Cell::new(7777) }));
+            slots[a1 as usize] = Slot::Rc(Rc::new(node(7777)));
         }
         1 => {
             let n = a1 as usize;
             let d = op[2] as usize;
-            let rcs: Vec<Rc<Obj>> = match n {
-                0 => Rc::new_many::<0>(Obj { id: std::cell::Cell::new(7777) }).into_iter().collect(),
-                1 => Rc::new_many::<1>(Obj { id: std::cell::Cell::new(7777) }).into_iter().collect(),
-                2 => Rc::new_many::<2>(Obj { id: std::cell::Cell::new(7777) }).into_iter().collect(),
-                _ => Rc::new_many::<3>(Obj { id: std::cell::Cell::new(7777) }).into_iter().collect(),
+            let rcs: Vec<Rc<Node>> = match n {
+                0 => Rc::new_many::<0>(node(7777)).into_iter().collect(),
+                1 => Rc::new_many::<1>(node(7777)).into_iter().collect(),
+                2 => Rc::new_many::<2>(node(7777)).into_iter().collect(),
+                _ => Rc::new_many::<3>(node(7777)).into_iter().collect(),
             };
             if n > 0 {
                 let w = vs::rc_count_word(&rcs[0]);
@@ -537,13 +714,15 @@ fn run_op(_tid: usize, op: &[i64], slots: &mut Vec<Slot>, guards: &mut Vec<Guard
                     mon.push(format!("PROPFAIL C10 new_many::<{}> created an object with strong count {}", n, circ::verif::rc::state_strong(w)));
                 }
             }
+            if rcs.len() != n {
+                mon.push(format!("PROPFAIL C10 new_many::<{}> returned {} pointers", n, rcs.len()));
+            }
             for (j, r) in rcs.into_iter().enumerate() {
                 slots[d + j] = Slot::Rc(r);
             }
         }
         2 => {
-            let c = a1 as usize;
-            let it = Rc::new_many_iter(Obj { id: std::cell::Cell::new(7777) }, c);
+            let it = Rc::new_many_iter(node(7777), a1 as usize);
             slots[op[2] as usize] = Slot::Iter(it);
         }
         3 => {
@@ -608,7 +787,7 @@ fn run_op(_tid: usize, op: &[i64], slots: &mut Vec<Slot>, guards: &mut Vec<Guard
         10 => {
             let n = op[2] as usize;
             let d = op[3] as usize;
-            let ws: Option<Vec<Weak<Obj>>> = match &slots[a1 as usize] {
+            let ws: Option<Vec<Weak<Node>>> = match &slots[a1 as usize] {
                 Slot::Rc(r) => Some(match n {
                     0 => r.weak_many::<0>().into_iter().collect(),
                     1 => r.weak_many::<1>().into_iter().collect(),
@@ -618,6 +797,9 @@ fn run_op(_tid: usize, op: &[i64], slots: &mut Vec<Slot>, guards: &mut Vec<Guard
             };
             if let Some(ws) = ws {
                 if let Slot::Rc(r) = &slots[a1 as usize] {
+                    if ws.len() != n {
+                        mon.push(format!("PROPFAIL C10 weak_many::<{}> returned {} pointers", n, ws.len()));
+                    }
                     for w in &ws {
                         if addr_of_word(vw::weak_word(w)) != addr_of_word(vs::rc_word(r)) || (w.is_null() != r.is_null()) {
                             mon.push("PROPFAIL C10 weak_many returned a pointer that does not refer to the receiver".to_string());
@@ -666,7 +848,7 @@ fn run_op(_tid: usize, op: &[i64], slots: &mut Vec<Slot>, guards: &mut Vec<Guard
         }
         14 => {
             let s = match (&slots[a1 as usize], guards.last()) {
-                (Slot::Rc(r), Some(g)) => Some(unsafe { std::mem::transmute::<Snapshot<'_, Obj>, Snapshot<'static, Obj>>(r.snapshot(g)) }),
+                (Slot::Rc(r), Some(g)) => Some(unsafe { std::mem::transmute::<Snapshot<'_, Node>, Snapshot<'static, Node>>(r.snapshot(g)) }),
                 _ => None,
             };
             if let Some(s) = s {
@@ -723,7 +905,7 @@ fn run_op(_tid: usize, op: &[i64], slots: &mut Vec<Slot>, guards: &mut Vec<Guard
         }
         19 => {
             let s = match (&slots[a1 as usize], guards.last()) {
-                (Slot::Weak(w), Some(g)) => Some(unsafe { std::mem::transmute::<WeakSnapshot<'_, Obj>, WeakSnapshot<'static, Obj>>(w.snapshot(g)) }),
+                (Slot::Weak(w), Some(g)) => Some(unsafe { std::mem::transmute::<WeakSnapshot<'_, Node>, WeakSnapshot<'static, Node>>(w.snapshot(g)) }),
                 _ => None,
             };
             if let Some(s) = s {
@@ -752,28 +934,128 @@ fn run_op(_tid: usize, op: &[i64], slots: &mut Vec<Slot>, guards: &mut Vec<Guard
             slots[a1 as usize] = Slot::Rc(Rc::null());
         }
         25 => {
-            // collection rounds: enter and leave a critical section, flushing the local bag
             for _ in 0..a1 {
                 let g = circ::cs();
                 g.flush();
                 drop(g);
             }
         }
-        _ => {}
-    }
-    // C01 on every owned reference of this thread: the payload must be live
-    for s in slots.iter() {
-        if let Slot::Rc(r) = s {
-            if let Some(o) = r.as_ref() {
-                if o.id.get() == POISON {
-                    mon.push(format!("PROPFAIL C01 after operation {}: an owned Rc refers to a destructed object", opc));
+        30 => {
+            // load
+            let (ck, a, b, d) = (op[1], op[2], op[3], op[4] as usize);
+            let c = get_cell(ck, a, b, slots, cells, mon);
+            if let (Some(c), Some(g)) = (c, guards.last()) {
+                let s = unsafe { (*c).load(SeqCst, g) };
+                let s: Snapshot<'static, Node> = unsafe { std::mem::transmute(s) };
+                sched::obs(2002, vs::snapshot_word(s), 0);
+                slots[d] = Slot::Snap(s);
+            }
+        }
+        31 => {
+            let (ck, a, b, src) = (op[1], op[2], op[3], op[4] as usize);
+            let c = get_cell(ck, a, b, slots, cells, mon);
+            let okk = match &slots[src] {
+                Slot::Rc(r) => store_ok(ck, holder_serial(ck, a, slots), r),
+                _ => false,
+            };
+            if let (Some(c), true, true) = (c, !guards.is_empty(), okk) {
+                if let Slot::Rc(r) = take(slots, src) {
+                    unsafe { (*c).store(r, SeqCst, guards.last().unwrap()) };
                 }
             }
+        }
+        32 => {
+            let (ck, a, b, src, d) = (op[1], op[2], op[3], op[4] as usize, op[5] as usize);
+            let c = get_cell(ck, a, b, slots, cells, mon);
+            let okk = match &slots[src] {
+                Slot::Rc(r) => store_ok(ck, holder_serial(ck, a, slots), r),
+                _ => false,
+            };
+            if let (Some(c), true) = (c, okk) {
+                if let Slot::Rc(r) = take(slots, src) {
+                    let old = unsafe { (*c).swap(r, SeqCst) };
+                    sched::obs(2002, vs::rc_word(&old), 0);
+                    slots[d] = Slot::Rc(old);
+                }
+            }
+        }
+        33 => {
+            let (ck, a, b, e, src, d) = (op[1], op[2], op[3], op[4] as usize, op[5] as usize, op[6] as usize);
+            let c = get_cell(ck, a, b, slots, cells, mon);
+            let exp = match &slots[e] {
+                Slot::Snap(s) => Some(*s),
+                _ => None,
+            };
+            let okk = match &slots[src] {
+                Slot::Rc(r) => store_ok(ck, holder_serial(ck, a, slots), r),
+                _ => false,
+            };
+            if let (Some(c), true, Some(exp), true) = (c, !guards.is_empty(), exp, okk) {
+                if let Slot::Rc(des) = take(slots, src) {
+                    let g: &'static Guard = unsafe { &*(guards.last().unwrap() as *const Guard) };
+                    match unsafe { (*c).compare_exchange(exp, des, SeqCst, SeqCst, g) } {
+                        Ok(old) => {
+                            sched::obs(2002, vs::rc_word(&old), 0);
+                            slots[d] = Slot::Rc(old);
+                            res = 1;
+                        }
+                        Err(err) => {
+                            sched::obs(2002, vs::snapshot_word(err.current), 0);
+                            slots[src] = Slot::Rc(err.desired);
+                            slots[d] = Slot::Snap(err.current);
+                        }
+                    }
+                }
+            }
+        }
+        _ => {}
+    }
+    // C01 / C02 on every reference of this thread: the payload must be live
+    for s in slots.iter() {
+        match s {
+            Slot::Rc(r) => {
+                if let Some(o) = r.as_ref() {
+                    if o.id.get() == POISON {
+                        mon.push(format!("PROPFAIL C01 after operation {}: an owned Rc refers to a destructed object", opc));
+                    }
+                }
+            }
+            Slot::Snap(sn) => {
+                if let Some(o) = sn.as_ref() {
+                    if o.id.get() == POISON {
+                        mon.push(format!("PROPFAIL C02 after operation {}: a Snapshot refers to a destructed object inside its critical section", opc));
+                    }
+                }
+            }
+            _ => {}
         }
     }
     sched::obs(2000, opc as usize, res);
 }
 
-fn iter_addr(_it: &NewRcIter<Obj>) -> usize {
-    0
+/// Hand-written choreographies (program + schedule script), run before the random stream.
+/// Each is a regression witness of a defect found by this framework or a targeted attack on a property.
+pub fn corpus() -> Vec<(&'static str, Prog, Vec<usize>, usize)> {
+    let mut out = vec![];
+    // D6: Weak::upgrade between its two additions while the pending destruction attempt runs (C01)
+    {
+        let t0 = (vec![(2u8, 1usize)], vec![vec![13, 0, 1], vec![25, 0], vec![7, 1], vec![12, 0]]);
+        let t1 = (vec![(1u8, 1usize)], vec![vec![7, 0], vec![25, 6], vec![25, 6], vec![25, 6]]);
+        let mut script = vec![0, 1, 1, 1, 1, 1, 0, 0];
+        script.extend(std::iter::repeat(1).take(300));
+        script.extend(std::iter::repeat(0).take(100));
+        out.push(("d6_upgrade_between_additions", Prog { g0: 0, ncells: 0, nobj: 1, threads: vec![t0, t1] }, script, 64));
+    }
+    // same race, the upgrader finishes after the first attempt consumed its token but before the next one
+    {
+        let t0 = (vec![(2u8, 1usize)], vec![vec![13, 0, 1], vec![25, 0], vec![25, 0], vec![7, 1], vec![12, 0]]);
+        let t1 = (vec![(1u8, 1usize)], vec![vec![7, 0], vec![25, 6], vec![25, 6], vec![25, 6], vec![25, 6]]);
+        let mut script = vec![0, 1, 1, 1, 1, 1, 0, 0];
+        script.extend(std::iter::repeat(1).take(7));
+        script.extend(std::iter::repeat(0).take(3));
+        script.extend(std::iter::repeat(1).take(300));
+        script.extend(std::iter::repeat(0).take(100));
+        out.push(("d6_upgrade_token_consumed", Prog { g0: 3, ncells: 0, nobj: 1, threads: vec![t0, t1] }, script, 64));
+    }
+    out
 }
